@@ -40,7 +40,8 @@ def find_clause(reg, qual, o):
             return c, dict(kind="ensures", expr=cl.expr, when=cl.when)
     for cl in c.exc:
         if cl.name == o["clause"]:
-            return c, dict(kind="raises", expr=cl.expr, exc=cl.exc)
+            return c, dict(kind="raises", expr=cl.expr, exc=cl.exc, may_raise=list(c.may_raise_list),
+                           all_raises=[dict(expr=x.expr, exc=x.exc) for x in c.exc])
     if o["clause"] == "no-unexpected-exception":
         return c, dict(kind="unexpected", exc=o["extra"].get("exc", ""))
     return c, None
